@@ -86,6 +86,10 @@ def sensitivity(names, tier="quick", runs=None):
             continue
         with open(meta) as f:
             m = json.load(f)
+        if m.get("moot_since"):
+            # a later fix: commit made this change harmless (its demonstration passes with the change applied)
+            print(f"sensitivity {name}: harmless since fix {m['moot_since']} - skipped")
+            continue
         props = m.get("detected_by") or [m["property"]]
         if isinstance(props, str):
             props = [props]
